@@ -32,7 +32,8 @@ REACH = {"quick": {"nomut-checks": 20000, "alias-checks": 20000, "active-probes"
 
 VMETHODS = ["as_boolean", "as_bytes", "as_date", "as_datetime", "as_float", "as_integer", "as_object", "as_string", "concat", "drop_na",
             "head", "tail", "map", "range", "rank", "replace_na", "sample", "sort", "sort_desc", "unique", "to_strings", "tolist_roundtrip",
-            "is_na", "dt.year", "dt.replace", "re.sub", "str.upper", "equal", "rank_ordinal", "getitem_slice_copy"]
+            "is_na", "dt.year", "dt.replace", "re.sub", "str.upper", "equal", "rank_ordinal", "getitem_slice_copy",
+            "dt.replace_nothing", "dt.replace_none", "re.sub_nomatch", "replace_na_noop", "head_all", "tail_all"]
 
 def generate(rng, tier):
     if rng.random() < 0.45:
@@ -81,6 +82,13 @@ def execute(case):
         elif m == "dt.year": out = vec.dt.year()
         elif m == "dt.replace": out = vec.dt.replace(month=1, day=1)
         elif m == "re.sub": out = vec.re.sub("a", "b")
+        # calls that have nothing to do (no component given, nothing matches, nothing missing, everything kept) still return NEW data
+        elif m == "dt.replace_nothing": out = vec.dt.replace()
+        elif m == "dt.replace_none": out = vec.dt.replace(year=None, month=None)
+        elif m == "re.sub_nomatch": out = vec.re.sub("\\uffff{3}", "b")
+        elif m == "replace_na_noop": out = vec.drop_na().replace_na(vec.na_value) if False else di.Vector(np.asarray(vec)[~np.asarray(vec.is_na())]).replace_na(0 if kind in ("int", "float", "bool") else vec.na_value)
+        elif m == "head_all": out = vec.head(len(values) + 3)
+        elif m == "tail_all": out = vec.tail(len(values) + 3)
         elif m == "str.upper": out = vec.str.upper()
         elif m == "equal": out = vec.equal(other)
         elif m == "getitem_slice_copy": out = vec.head(len(values))
